@@ -128,6 +128,39 @@ func init() {
 			solo = append(solo, names)
 		}
 		o["solo"] = solo
+		// a history: the statement (named three times by now) is edited in place - every reference in the field list gets
+		// another name - and asked again; the answer must be that of the edited statement parsed afresh from its own text
+		if rw, _ := c["rewrite"].(bool); !rw {
+			if p := guard(func() {
+				for _, f := range s.Fields {
+					f.Expr = influxql.RewriteExpr(f.Expr, func(e influxql.Expr) influxql.Expr {
+						if ref, ok := e.(*influxql.VarRef); ok {
+							return &influxql.VarRef{Val: ref.Val + "q", Type: ref.Type}
+						}
+						return e
+					})
+				}
+			}); p != "" {
+				o["edit_panic"] = p
+				return o
+			}
+			var cols5, cols6 []string
+			var s6 *influxql.SelectStatement
+			if p := guard(func() { cols5 = s.ColumnNames() }); p != "" {
+				o["panic"] = "after edit: " + p
+				return o
+			}
+			edited := s.String()
+			if p := guard(func() { s6, perr = c20Parse(edited, c) }); p != "" || perr != "" {
+				o["edit_perr"] = p + perr
+				return o
+			}
+			if p := guard(func() { cols6 = s6.ColumnNames() }); p != "" {
+				o["panic"] = "edited, fresh: " + p
+				return o
+			}
+			o["c5"], o["c6"], o["edited"] = c20Strings(cols5), c20Strings(cols6), edited
+		}
 		return o
 	}})
 }
